@@ -21,8 +21,8 @@ func init() { Registry["C07"] = C07_Run }
 //  hist/<prior>/<probe>  explicit histories: a prior call (options, outcome, optional Collect)
 //                   followed by the probe, compared with the probe alone.
 
-var c07Probes = []string{"int-test", "int-coerce", "int-required", "struct", "slice", "custom-issue", "ptr-validate", "null-json"}
-var c07Priors = []string{"ctxvalue", "formatter", "failing-struct", "collect-map", "collect-list", "catching", "panicking", "null-json"}
+var c07Probes = []string{"int-test", "int-coerce", "int-required", "struct", "slice", "custom-issue", "ptr-validate", "null-json", "msgfunc", "shared-schema"}
+var c07Priors = []string{"ctxvalue", "formatter", "failing-struct", "collect-map", "collect-list", "catching", "panicking", "null-json", "shared-then-collect"}
 
 func C07_Jobs() []string {
 	var out []string
@@ -173,6 +173,23 @@ func c07Probe(kind string, g, x int) *c07Obs {
 		var d struct{ A int }
 		errs := z.Struct(z.Schema{"a": z.Int()}).Parse(zjson.Decode(strings.NewReader("null")), &d, z.WithIssueFormatter(func(e *z.ZogIssue, c z.Ctx) { e.SetMessage("probe-formatter") }))
 		obsMap(o, errs)
+	case "msgfunc":
+		// a test-level MessageFunc that leaves the message alone for this issue: the message then
+		// comes from this execution's formatter, never from an earlier execution
+		d := 0
+		quiet := z.MessageFunc(func(e *z.ZogIssue, c z.Ctx) {})
+		errs := z.Int().GT(g, quiet).LT(g, z.MessageFunc(func(e *z.ZogIssue, c z.Ctx) {
+			if e.Message == "" {
+				e.SetMessage("mine")
+			}
+		})).Parse(x, &d)
+		obsList(o, errs)
+	case "shared-schema":
+		// the same schema object (and a reusable test with params) used before and now
+		d := 0
+		obsList(o, c07Shared.Parse(x, &d))
+		var ds struct{ A int }
+		obsMap(o, z.Struct(z.Schema{"a": z.Int().Test(c07SharedTest)}).Parse(map[string]any{"a": x}, &ds))
 	case "custom-issue":
 		d := 0
 		errs := z.Int().TestFunc(func(val any, ctx z.Ctx) bool {
@@ -186,6 +203,15 @@ func c07Probe(kind string, g, x int) *c07Obs {
 }
 
 func staleFormatter(e *z.ZogIssue, c z.Ctx) { e.SetMessage("STALE-FORMATTER") }
+
+// a schema object and a reusable test that live across executions (rebuilt by c07Reset)
+var c07Shared *z.NumberSchema[int]
+var c07SharedTest z.Test
+
+func c07Reset() {
+	c07SharedTest = z.TestFunc("shared", func(val any, c z.Ctx) bool { return false }, z.Params(map[string]any{"min": 3, "gt": 4}))
+	c07Shared = z.Int().GT(1 << 40).Test(c07SharedTest)
+}
 
 // dirtyPools fills every exported pool with arbitrary objects.
 func dirtyPools() {
@@ -269,6 +295,15 @@ func c07Prior(kind string) {
 		d := 0
 		errs := z.Int().GT(100).LT(-100).Parse(1, &d)
 		z.Issues.SanitizeListAndCollect(errs)
+	case "shared-then-collect":
+		// the shared schema fails (its issues carry the tests' params), the issues are collected;
+		// a catching twin swallows the same tests' issues
+		d := 0
+		z.Issues.CollectList(c07Shared.Parse(5, &d))
+		var ds struct{ A int }
+		z.Issues.SanitizeMapAndCollect(z.Struct(z.Schema{"a": z.Int().Test(c07SharedTest)}).Parse(map[string]any{"a": 5}, &ds))
+		z.Int().Test(c07SharedTest).Catch(1).Parse(5, &d)
+		z.Int().GT(100, z.Message("EARLIER MESSAGE")).Catch(1).Parse(5, &d)
 	case "null-json":
 		var d struct{ A int }
 		z.Struct(z.Schema{"a": z.Int()}).Parse(zjson.Decode(strings.NewReader("null")), &d, z.WithIssueFormatter(staleFormatter))
@@ -307,6 +342,7 @@ func C07_Run(job string) {
 		probe = c
 	}
 	p.ClearPools()
+	c07Reset()
 	v.MapOrderChoice(false) // the visit order is C09's subject
 	if a == "step" {
 		v.PoolChoice(true)
@@ -320,6 +356,7 @@ func C07_Run(job string) {
 	dirty := c07Probe(probe, g, x)
 	v.PoolChoice(false)
 	p.ClearPools()
+	c07Reset()
 	clean := c07Probe(probe, g, x)
 	if len(clean.items) > 3 {
 		v.Cover("probe-issue")
